@@ -10,7 +10,7 @@
               [expectation Ex], Ex d = ... otherwise (see notes/C11.md). *)
 From Coq Require Import Reals Lra.
 From Coquelicot Require Import Coquelicot.
-Require Import NV.Base.RealExpr NV.C11.Model NV.C11.Gen_Energies NV.C11.Proofs.
+Require Import NV.Base.RealExpr NV.C11.Model NV.C11.Gen_Energies NV.C11.Proofs NV.C11.ProofsPoisson NV.Base.LhCombinators.
 Open Scope R_scope.
 
 
@@ -236,6 +236,65 @@ Theorem C11_hamiltonian :
   forall x,
   is_derive (fun y => gauss_quadform 1 y) x x /\ is_derive (fun y : R => y) x 1.
 Proof. exact hamiltonian_prior. Qed.
+
+(* ---- operator-level composition rules, for ALL spaces, maps and pairings (Base/LhCombinators.v) ----
+   [factored K ipV ipW M L R] := (forall v, M v = L (R v)) /\ (forall w v, ipV (L w) v = ipW w (R v)),
+   i.e. M = L o R and R = L^dagger. *)
+Theorem C11_amend :
+  forall (K V W X : Type) (ipV : V -> V -> K) (ipW : W -> W -> K) (ipX : X -> X -> K)
+         (M : V -> V) (L : W -> V) (R : V -> W) (J : X -> V) (Jt : V -> X),
+    (forall (v : V) (x : X), ipX (Jt v) x = ipV v (J x)) ->
+    factored K ipV ipW M L R ->
+    factored K ipX ipW (amend_M V X M J Jt) (amend_L V W X L Jt) (amend_R V W X R J) /\
+    (forall x y : X, ipX (amend_M V X M J Jt x) y = ipV (M (J x)) (J y)).
+Proof. exact amend_rules. Qed.
+
+Theorem C11_sum :
+  forall (K : Type) (kadd : K -> K -> K) (V W1 W2 : Type) (vadd : V -> V -> V) (ipV : V -> V -> K)
+         (ipW1 : W1 -> W1 -> K) (ipW2 : W2 -> W2 -> K),
+    (forall a b v : V, ipV (vadd a b) v = kadd (ipV a v) (ipV b v)) ->
+    forall (M1 : V -> V) (L1 : W1 -> V) (R1 : V -> W1) (M2 : V -> V) (L2 : W2 -> V) (R2 : V -> W2),
+    factored K ipV ipW1 M1 L1 R1 -> factored K ipV ipW2 M2 L2 R2 ->
+    factored K ipV (ipW12 K kadd W1 W2 ipW1 ipW2) (sum_M V vadd M1 M2) (sum_L V W1 W2 vadd L1 L2) (sum_R V W1 W2 R1 R2).
+Proof. exact sum_factored. Qed.
+
+(* _LikelihoodChain with a ScalingOperator(f), f = s*s: transformation scaled by s = sqrt f *)
+Theorem C11_scale_operator :
+  forall (K : Type) (kmul : K -> K -> K) (V W : Type) (ipV : V -> V -> K) (ipW : W -> W -> K)
+         (vscal : K -> V -> V) (wscal : K -> W -> W),
+    (forall (s : K) (a v : V), ipV (vscal s a) v = kmul s (ipV a v)) ->
+    (forall (s : K) (w b : W), ipW w (wscal s b) = kmul s (ipW w b)) ->
+    (forall (s t : K) (a : V), vscal s (vscal t a) = vscal (kmul s t) a) ->
+    forall (M : V -> V) (L : W -> V) (R : V -> W),
+    (forall (s : K) (b : W), L (wscal s b) = vscal s (L b)) ->
+    forall s : K, factored K ipV ipW M L R ->
+    factored K ipV ipW (fun v : V => vscal (kmul s s) (M v)) (fun w : W => vscal s (L w)) (fun v : V => wscal s (R v)).
+Proof. exact scale_factored. Qed.
+
+(* StandardHamiltonian: likelihood + white prior: metric M + 1 with square roots (L | 1), (R ; 1) *)
+Theorem C11_hamiltonian_operator :
+  forall (K : Type) (kadd : K -> K -> K) (V W : Type) (vadd : V -> V -> V) (ipV : V -> V -> K) (ipW : W -> W -> K),
+    (forall a b v : V, ipV (vadd a b) v = kadd (ipV a v) (ipV b v)) ->
+    forall (M : V -> V) (L : W -> V) (R : V -> W),
+    factored K ipV ipW M L R ->
+    factored K ipV (ipW12 K kadd W V ipW ipV) (fun v : V => vadd (M v) v)
+      (fun w : W * V => vadd (L (fst w)) (snd w)) (fun v : V => (R v, v)).
+Proof. exact hamiltonian_factored. Qed.
+
+(* the generated Poisson pixel with R := Derive t as right square root is an instance (non-vacuity) *)
+Example C11_poisson_instance :
+  forall x, 0 < x ->
+    factored R Rmult Rmult (fun v => (Derive poisson_t x) ^ 2 * v) (fun w => Derive poisson_t x * w) (fun v => Derive poisson_t x * v).
+Proof. exact poisson_instance. Qed.
+
+(* Poisson Fisher information as a convergent series over the data d = 0, 1, 2, ... (no hypothesis):
+   total mass 1, zero-mean score, sum_d Poisson(d|x) Hessian(d, x) = (Derive t x)^2 *)
+Theorem C11_poisson_fisher_series :
+  forall x, 0 < x ->
+    is_series (fun d : nat => poisson_pmf d x) 1 /\
+    is_series (fun d : nat => poisson_pmf d x * poisson_grad (INR d) x) 0 /\
+    is_series (fun d : nat => poisson_pmf d x * poisson_hess (INR d) x) (Derive poisson_t x ^ 2).
+Proof. exact poisson_fisher_series. Qed.
 
 (* non-vacuity: the hypotheses [expectation Ex], Ex d = m, Ex d^2 = m^2 + v are consistent *)
 Example C11_expectation_satisfiable :
